@@ -297,10 +297,13 @@ func actualRootType(s, root *schema.Schema, visiting []string) json.Type {
 	if n, ok := s.RootNode().(*schema.MixedValueNode); ok {
 		types := make(map[json.Type]struct{}, 2)
 		var tt json.Type
+	alternatives:
 		for _, tn := range n.GetTypes() {
 			for _, v := range visiting {
 				if v == tn {
-					return json.TypeMixed
+					// An alternative which leads back here adds no JSON type of
+					// its own: the others decide (@k = @k | @s is a string).
+					continue alternatives
 				}
 			}
 			ss, err := root.Type(tn)
